@@ -693,6 +693,19 @@ example : (hRegister hHist).deps 10 = [11, 1] ∧ (hRegister hHist).deps 11 = [2
 example : hWellFormed 0 hHist = true ∧ famLeaves (hRegister hHist) 5 10 = [2, 1] := by decide
 example : Path (hRegister hHist) 10 2 := .step 10 11 2 (by decide) (by decide) (.direct 11 2 (by decide) (by decide))
 
+/-! ### derived execution contexts
+
+A context class derived from another one (21 := `class JBossCtx(HostCtx)`, 20 := `HostCtx`) is a key of its own:
+implementation 1 is declared for the parent, 2 for the derived one, 3 for the list mixing both, 4 later for the
+derived one only.  Under the derived context the supplier is 4 and 2, 3 are told to ignore it; under the parent
+the supplier stays 3 and only 1 is told to ignore it (IGNORE is a set: the model's list may repeat an entry) — `earlier_ignored`, `other_context_silent` and
+`point_value_partial` apply to 20 and 21 like to any two keys. -/
+private def dHist : History :=
+  [⟨true, [⟨0, 1, [20]⟩]⟩, ⟨true, [⟨0, 2, [21]⟩]⟩, ⟨true, [⟨0, 3, [20, 21]⟩]⟩, ⟨true, [⟨0, 4, [21]⟩]⟩]
+example : supplier dHist 0 21 = some 4 ∧ supplier dHist 0 20 = some 3 ∧
+    (register wRoot dHist).ignore 1 = [20] ∧ (register wRoot dHist).ignore 2 = [21, 21] ∧
+    (register wRoot dHist).ignore 3 = [21] ∧ (register wRoot dHist).ignore 4 = [] := by decide
+
 /-! ### non-vacuity -/
 private def exHist : History :=
   [⟨true, [⟨0, 1, [20]⟩, ⟨5, 9, [20]⟩]⟩, ⟨true, [⟨0, 2, [20, 21]⟩]⟩, ⟨false, [⟨0, 4, [20]⟩]⟩, ⟨true, [⟨0, 3, [21, 21]⟩]⟩]
